@@ -373,4 +373,101 @@ theorem il_eq_q_deviation (h : Query → Bytes) {K : Bytes} (c : Bytes) (i : ℕ
         h (.ecAdd .secp256k1 (h (.ecMulGen .secp256k1 (IL h K c i))) K) = identity33 := Or.inl (by omega)
     rw [specCKDpub_eq h c i hK, if_neg this, if_pos h2']
 
+
+/-! ## non-vacuity: a concrete oracle satisfying every assumption, and concrete runs -/
+section NonVacuity
+open SlVerif.GroupOracle
+
+/-- toy oracle: the group part computes in `Zq` (`GroupOracle.Toy`, generator 1), the hashes are arbitrary functions with
+    the right output lengths (`IL ∈ {1,…,5}`) -/
+def hT : Query → Bytes
+  | .hmacSha512 _ d => natToBe 32 (d.sum % 5 + 1) ++ List.replicate 32 9
+  | .sha256 d => natToBe 32 d.sum
+  | .ripemd160 d => List.replicate 20 (d.sum % 256)
+  | q => Toy.h (fun _ => []) q
+
+/-- `hT` is a `GroupOracle` (its group answers are those of `GroupOracle.Toy.h`) -/
+def goT : GroupOracle hT Zq where
+  dec := Toy.dec
+  gen := 1
+  Canon := Toy.Canon
+  dec_inj := (Toy.inst (fun _ => [])).dec_inj
+  canon_length := (Toy.inst (fun _ => [])).canon_length
+  canon_identity := (Toy.inst (fun _ => [])).canon_identity
+  dec_identity := (Toy.inst (fun _ => [])).dec_identity
+  valid := (Toy.inst (fun _ => [])).valid
+  canon_mulGen := (Toy.inst (fun _ => [])).canon_mulGen
+  canon_mul := (Toy.inst (fun _ => [])).canon_mul
+  canon_add := (Toy.inst (fun _ => [])).canon_add
+  canon_neg := (Toy.inst (fun _ => [])).canon_neg
+  mulGen := (Toy.inst (fun _ => [])).mulGen
+  mul := (Toy.inst (fun _ => [])).mul
+  add := (Toy.inst (fun _ => [])).add
+  neg := (Toy.inst (fun _ => [])).neg
+
+theorem hlT : HashLens hT :=
+  ⟨fun d => natToBe_length _ _, fun k d => by simp [hT, natToBe_length], fun d => by simp [hT]⟩
+
+/-- a successful two-level derivation from the root `1•G`: offsets 2 and 4, final key `7•G`, depth 2, child number 5,
+    parent fingerprint = fingerprint of the depth-1 key `3•G` -/
+theorem toy_run : deriveXpubOffsetsP hT xpubVersion (Toy.enc 1) (List.replicate 32 0) [0, 5] =
+    .ok (⟨xpubVersion, 2, fp4 hT (Toy.enc 3), 5, List.replicate 32 9, Toy.enc 7⟩, [2, 4]) := by decide +kernel
+
+theorem toy_run' : deriveXpubP hT xpubVersion (Toy.enc 1) (List.replicate 32 0) [0, 5] =
+    .ok ⟨xpubVersion, 2, fp4 hT (Toy.enc 3), 5, List.replicate 32 9, Toy.enc 7⟩ := by decide +kernel
+
+/-- `derive_nil` / `bookkeeping` are about something: the master key and a depth-2 key -/
+example : deriveXpubP hT tpubVersion (Toy.enc 1) (List.replicate 32 0) [] =
+    .ok ⟨tpubVersion, 0, [0, 0, 0, 0], 0, List.replicate 32 0, Toy.enc 1⟩ := derive_nil hT _ _ (by decide)
+example : ckdIter hT (Toy.enc 1, List.replicate 32 0) [0, 5] = .ok (Toy.enc 7, List.replicate 32 9) :=
+  (bookkeeping hT _ _ _ _ toy_run').2.2.2.2.2.2.1
+/-- `derive_snoc`: the depth-2 key is the child of the depth-1 key -/
+example : ∃ x₀ ch, deriveXpubP hT xpubVersion (Toy.enc 1) (List.replicate 32 0) [0] = .ok x₀ ∧
+    deriveChildP hT x₀.key x₀.chainCode 5 = .ok ch ∧ ch.key = Toy.enc 7 := by
+  obtain ⟨x₀, ch, a, b, c⟩ := derive_snoc hT _ _ _ [0] 5 toy_run'
+  exact ⟨x₀, ch, a, b, (congrArg XPub.key c).symm⟩
+/-- `additive`: 7 = 1 + (2 + 4)·1 in the toy group -/
+example : Toy.dec (Toy.enc 7) = Toy.dec (Toy.enc 1) + offSum [2, 4] • (1 : Zq) :=
+  (additive goT (Toy.canon_enc 1) toy_run).2.2.2.2
+/-- `serialize_len` / `to_string_no_panic`: the hypotheses are satisfiable -/
+example : (serialize ⟨xpubVersion, 2, fp4 hT (Toy.enc 3), 5, List.replicate 32 9, Toy.enc 7⟩).length = 78 :=
+  (serialize_len goT hlT (Toy.canon_enc 1) (by simp) toy_run').1
+example : ∃ s, toStringP hT ⟨xpubVersion, 2, fp4 hT (Toy.enc 3), 5, List.replicate 32 9, Toy.enc 7⟩ true = .ok s :=
+  ⟨_, (to_string_no_panic goT hlT (Toy.canon_enc 1) (by simp) toy_run').2⟩
+/-- `derive_ok_iff`: both sides are inhabited -/
+example : ∃ x, deriveXpubP hT xpubVersion (Toy.enc 1) (List.replicate 32 0) [0, 5] = .ok x := ⟨_, toy_run'⟩
+/-- a 40-level derivation succeeds with depth 40 -/
+example : (match deriveXpubP hT xpubVersion (Toy.enc 1) (List.replicate 32 0) (List.replicate 40 1) with
+    | .ok x => x.depth == 40 | _ => false) = true := by decide +kernel
+/-- errors: hardened component, 256 components, identity root -/
+example : deriveXpubP hT xpubVersion (Toy.enc 1) (List.replicate 32 0) [0, 2 ^ 31 + 5] = .err .hardenedChildNotSupported :=
+  hardened_error_name goT _ _ (Toy.canon_enc 1) (by simp) (pre := [0]) (post := [])
+    (x₀ := ⟨xpubVersion, 1, fp4 hT (Toy.enc 1), 0, List.replicate 32 9, Toy.enc 3⟩) (by decide +kernel) (by decide)
+example : deriveXpubP hT xpubVersion (Toy.enc 1) (List.replicate 32 0) (List.replicate 256 0) = .err .pathTooDeep :=
+  (errors_too_deep hT _ _ _ (by rw [List.length_replicate]; omega)).2 (by decide)
+example : deriveXpubP hT xpubVersion identity33 (List.replicate 32 0) [0, 5] = .err .pubkeyPointAtInfinity :=
+  errors_identity_root hT _ _ _
+/-- Base58: leading zero bytes become '1's and come back -/
+example : base58Encode [0, 0, 1, 2, 3] = "11Ldp".toList := by decide
+example : base58Decode "11Ldp".toList = some [0, 0, 1, 2, 3] := by decide
+example : base58Decode (base58Encode [0, 0, 1, 2, 3]) = some [0, 0, 1, 2, 3] := base58_roundtrip _ (by decide)
+/-- `impl_eq_spec_partial`: `IL ≠ q` holds for `hT` (IL = 2 here) and both sides are `some` -/
+example : toKeyCc (deriveChildP hT (Toy.enc 1) (List.replicate 32 0) 0) = some (Toy.enc 3, List.replicate 32 9) := by
+  decide +kernel
+example : specCKDpub hT (Toy.enc 1) (List.replicate 32 0) 0 = some (Toy.enc 3, List.replicate 32 9) := by
+  rw [← (impl_eq_spec_partial hT (List.replicate 32 0) 0 (K := Toy.enc 1) (by decide) (by decide +kernel)).1]
+  decide +kernel
+
+/-- an oracle whose HMAC answers `I_L = q` exactly: the one place where code and BIP32 differ -/
+def hQ : Query → Bytes
+  | .hmacSha512 _ _ => natToBe 32 secpQ ++ List.replicate 32 9
+  | q => hT q
+
+/-- `il_eq_q_deviation` is not vacuous: with `I_L = q` the model (like the code) returns offset 0 and the parent key as
+    child, BIP32's CKDpub rejects -/
+example : deriveChildP hQ (Toy.enc 1) (List.replicate 32 0) 0 = .ok ⟨0, Toy.enc 1, List.replicate 32 9⟩ ∧
+    specCKDpub hQ (Toy.enc 1) (List.replicate 32 0) 0 = none := by decide +kernel
+
+end NonVacuity
+
 end SlVerif.C12
